@@ -2,7 +2,7 @@
 #pragma once
 #include "mesh_common.h"
 enum Op { OP_NONE = 0, OP_DEL_V, OP_DEL_E, OP_DEL_F, OP_DEL_C, OP_ADD_V, OP_ADD_E, OP_ADD_E_DUP, OP_ADD_F, OP_ADD_C,
-          OP_SWAP_V, OP_SWAP_E, OP_SWAP_F, OP_SWAP_C, OP_GC, OP_CLEAR, OP_BU_TOGGLE, OP_SET_E, OP_SET_F, OP_SET_C, OP_ADD_NV, N_OPS };
+          OP_SWAP_V, OP_SWAP_E, OP_SWAP_F, OP_SWAP_C, OP_GC, OP_CLEAR, OP_BU_TOGGLE, OP_SET_E, OP_SET_F, OP_SET_C, OP_ADD_NV, OP_SET_MODE, OP_BU_OFF, N_OPS };
 
 // a: first entity index, b: second (pairs) -- both already decoded to be in range by the caller
 static void apply_op(TopologyKernel &m, unsigned op, unsigned a, unsigned b) {
@@ -20,6 +20,8 @@ static void apply_op(TopologyKernel &m, unsigned op, unsigned a, unsigned b) {
   case OP_SWAP_F: m.swap_face_indices(FH((int)a), FH((int)b)); break;
   case OP_SWAP_C: m.swap_cell_indices(CH((int)a), CH((int)b)); break;
   case OP_GC: m.collect_garbage(); break;
+  case OP_SET_MODE: m.enable_deferred_deletion((a & 1) != 0); m.enable_fast_deletion((a & 2) != 0); break;   // deferred->immediate collects garbage
+  case OP_BU_OFF: if (a & 1) m.enable_vertex_bottom_up_incidences(false); if (a & 2) m.enable_edge_bottom_up_incidences(false); if (a & 4) m.enable_face_bottom_up_incidences(false); break;
   case OP_CLEAR: m.clear(); break;
   case OP_BU_TOGGLE:  // a = subset of kinds to switch off and on again (bit0 V, bit1 E, bit2 F)
     if (a & 1) m.enable_vertex_bottom_up_incidences(false);
@@ -40,6 +42,7 @@ static unsigned op_arity_count(const TopologyKernel &m, unsigned op) {
   case OP_ADD_E: case OP_ADD_E_DUP: case OP_SWAP_V: return nv * nv;
   case OP_SWAP_E: return ne * ne; case OP_SWAP_F: return nf * nf; case OP_SWAP_C: return nc * nc;
   case OP_BU_TOGGLE: return 14;   // subsets 1..7 x two re-enable orders
+  case OP_SET_MODE: return 4; case OP_BU_OFF: return 8;
   default: return 0;
   }
 }
